@@ -245,6 +245,9 @@ func TestVerifReplayArrays(t *testing.T) {
 		{"{@range -2 2}", "-2\x00-1\x000\x001"},
 		{"{@for 1 {lt {0} 20} {multi {0} 2}}", "1\x002\x004\x008\x0016"}, {"{@for 0 {lt {1} 3} {sumi {0} 5}}", "0\x005\x0010"},
 		{"{@for a {lt {1} 2} \"{0}{k}\"}", "a\x00aKEY"},
+		// an empty value is an element like any other: ["", "a"], ["", "", "x"], ["b", ""]
+		{"{@for \"\" {lt {1} 2} \"{0}a\"}", "\x00a"}, {"{@for \"\" {lt {1} 3} {if {eq {1} 1} x}}", "\x00\x00x"}, {"{@for b {lt {1} 2} \"\"}", "b\x00"},
+		{"{@for 7 {lt {1} 0} {0}}", ""}, {"{@for 7 {lt {1} 1} {0}}", "7"},
 		{"{$ a b c}", "a\x00b\x00c"}, {"{@ a \"\" c}", "a\x00\x00c"}, {"{$ a}", "a"}, {"{@len {$ a b c}}", "3"},
 	} {
 		n++
